@@ -35,7 +35,7 @@ def run(tier, seed):
     violations = []
 
     def bad(key, **kw):
-        if len(violations) < 30:
+        if len(violations) < 400:
             violations.append({"case_key": key, **kw})
 
     def mk(cls, buf):
@@ -73,6 +73,8 @@ def run(tier, seed):
                 buf = bcls(capacity=rnd.choice([64, 512]))
                 buf.allocate(rnd.choice([8, 24]))
                 o = mk(cls, buf)
+                if cls in (C.PkArr, C.PkArr2):
+                    o.to_nplike()  # the object has been used before it is pickled
                 want = value(o)
                 key = cls.__name__
                 evals += 1
@@ -105,6 +107,12 @@ def run(tier, seed):
                         o2[1] = -5.0
                         if o2[1] != -5.0 or o[1] == -5.0:
                             bad(f"write:{key}")
+                        v = o2.to_nplike()
+                        if v[1] != -5.0:
+                            bad(f"read-paths-disagree:{key}", item=float(o2[1]), through_view=float(v[1]))
+                        v[0] = 3.25
+                        if o2[0] != 3.25:
+                            bad(f"view-write-lost:{key}")
                     elif cls is C.PkHybDyn:
                         o2.w[0] = 99
                         o2.k = 5
@@ -155,5 +163,13 @@ def run(tier, seed):
         "rule": "importable classes (static/dynamic/nested structs, 1-d/2-d/struct arrays, static/dynamic/nested hybrid classes) x both buffer kinds: "
                 "value equal at every field after loads(dumps(o)), buffer independent of the original, further reads/writes work; groups of objects "
                 "sharing a buffer (filled exactly, with an interior hole) still share one, which still allocates first-fit and grows; distinct by (class, buffer kind, repetition)",
-        "exhaustive": False, "violations": violations[:6], "samples": [{"classes": [c.__name__ for c in classes]}],
+        "exhaustive": False, "violations": _by_key(violations), "samples": [{"classes": [c.__name__ for c in classes]}],
     }
+
+
+def _by_key(violations, cap=12):
+    """one representative per case key (known findings must not crowd out new violations)"""
+    seen = {}
+    for v in violations:
+        seen.setdefault(v.get("case_key"), v)
+    return list(seen.values())[:cap]
